@@ -168,7 +168,37 @@ impl UpdateTrivia for LastStmt {
         Fn(EX, "format_expression", mode="stub", proved_in="expr", contract="requires wf(skel(*expression)), ensures erase(skel(r)) == erase(skel(*expression)),"),
         Fn(EX, "hang_expression_trailing_newline", mode="stub", proved_in="expr", contract="requires wf(skel(*expression)), ensures erase(skel(r)) == erase(skel(*expression)),"),
         Fn(STM, "remove_condition_parentheses", mode="stub", proved_in="stmt", contract="ensures skel(r) == strip_top(skel(expression)),"),
-        Fn(STM, "should_indent_further", mode="stub", sig_edits=[Hole("<'a>(trivia: impl Iterator<Item = &'a Token>, shape: Shape)", "(trivia: Vec<Token>, shape: Shape)", kind="proxy", why="iterator parameter")]),
+        Raw("""
+#[verifier::external_body] pub fn peek_tokens<'b>(v: &'b Vec<Token>) -> (r: std::iter::Peekable<std::slice::Iter<'b, Token>>)
+    ensures pk_rest(&r).len() == v@.len() { unimplemented!() /* v.iter().peekable() */ }
+#[verifier::external_body] pub fn nesting_depth(shape: Shape) -> (r: usize) { unimplemented!() /* shape.indent().block_indent() + shape.indent().additional_indent() */ }
+#[verifier::external_body] pub fn followed_by_comment(t: &Token) -> (r: bool) { unimplemented!() /* matches!(t.token_kind(), SingleLineComment | MultiLineComment) */ }
+#[verifier::external_body] pub fn usize_max(a: usize, b: usize) -> (r: usize) ensures r == (if a >= b { a } else { b }) { a.max(b) }   // std: <usize as Ord>::max (a provided trait method: no assume_specification in this Verus)
+""", module="verif_collapse"),
+        Fn(SH, "configured_indent_width", impl_of="Indent", contract="ensures r == self.indent_width,"),
+        Fn(STM, "should_indent_further", contract="""
+    // total for every trivia list and every shape (C07): no arithmetic underflow / overflow, no division by zero (an indent width of 0 is a
+    // configuration the CLI accepts: D49), the loop ends with the list
+""", sig_edits=[Hole("<'a>(trivia: impl Iterator<Item = &'a Token>, shape: Shape)", "(trivia: Vec<Token>, shape: Shape)", kind="proxy", why="iterator parameter")],
+           edits=[
+            Hole("shape.indent().block_indent() + shape.indent().additional_indent()", "verif_collapse::nesting_depth(shape)", kind="wrapper", why="machine arithmetic: the sum of the two nesting depths fits a usize (the stated assumption of every unit but ctx / Kani shape)"),
+            Hole("shape.indent().configured_indent_width().max(1)", "verif_collapse::usize_max(shape.indent().configured_indent_width(), 1)", kind="wrapper", optional=True, why="<usize as Ord>::max through a wrapper with the std function's meaning (optional: without the call the bare division stays and its divisor is not known to be positive)"),
+            Hole("trivia.peekable()", "verif_collapse::peek_tokens(&trivia)", kind="wrapper", why="Iterator::peekable through a wrapper carrying the ghost sequence"),
+            Hole("""matches!(
+                    next_trivia.token_kind(),
+                    TokenKind::SingleLineComment | TokenKind::MultiLineComment
+                )""", "verif_collapse::followed_by_comment(next_trivia)", kind="wrapper", why="matches! over Token::token_kind()"),
+            Hole("""let last_line = characters
+                        .chars()
+                        .rev()
+                        .take_while(|c| !matches!(c, '\\n' | '\\r'));""", "", why="char iterator adapters over the whitespace text (its last line): the three counts taken from it are arbitrary numbers here"),
+            Hole("last_line.clone().any(|c| matches!(c, '\\t'))", "hole_bool()", why="char iterator: does the last line hold a tab"),
+            Hole("last_line.filter(|c| matches!(c, '\\t')).count()", "hole_usize()", why="char iterator: number of tabs"),
+            Hole("last_line.filter(|c| matches!(c, ' ')).count()", "hole_usize()", why="char iterator: number of spaces"),
+            Loop("while let Some(trivia) = iter.next()", """
+        decreases pk_rest(&iter).len(),
+"""),
+        ]),
         Fn(STM, "format_stmt_no_trivia", mode="stub", proved_in="block", contract="requires simple_stmt_kind(*stmt),",
            note="its second precondition (the statement is formatted normally: not ignored, in range) is not carried here: an `if` that reaches format_if is itself formatted normally and an ignore comment in its body makes is_if_guard false (argued, not proved)"),
         Fn(BLK, "format_last_stmt_no_trivia", mode="stub"),
